@@ -291,3 +291,16 @@ Proof.
   destruct H as [H|H]; [rewrite H in E0; discriminate|].
   cbn [h_st]. destruct (tget' (ns_rounds st) (rd_id rd)); [reflexivity|contradiction].
 Qed.
+
+(* the whole handler of a board message (the pool included): a refusal has written nothing.  (Before
+   fix of OperationService.PutOperation the handler could report an error AFTER the round had been
+   saved: the very same operation was still pending.) *)
+Theorem refused_board_message_writes_nothing now st m h :
+  process_board_message now {| h_st := st; h_tr := [] |} m = RErr h ->
+  no_state_writes (h_tr h).
+Proof.
+  unfold process_board_message.
+  destruct (process_message now {| h_st := st; h_tr := [] |} m) as [h1 [o|]|h1|] eqn:E; try discriminate.
+  - unfold put_operation. destruct (existsb _ _); discriminate.
+  - intros H. inversion H; subst. eapply refused_message_writes_nothing. exact E.
+Qed.
